@@ -36,10 +36,23 @@ type c02Case struct {
 	Pieces  []c02Piece
 	NoFinal bool // no final newline
 	Headers bool // start with a header block (else body only)
+	// Busy: the server is doing other things at the same time - a second SMTP
+	// session delivers a different message of OtherN bytes to another mailbox
+	// while this one is delivered, and the read interfaces (REST, web UI, POP3
+	// RETR) fetch the message at the same time instead of one after the other.
+	Busy   bool
+	OtherN int
+}
+
+func (k *c02Case) busyString() string {
+	if !k.Busy {
+		return "sequential"
+	}
+	return fmt.Sprintf("busy server: second SMTP session (%d-byte message) alongside, readers concurrent", k.OtherN)
 }
 
 func (k *c02Case) Describe() []string {
-	l := []string{fmt.Sprintf("store=%s %s recipients=%d noFinalNewline=%v size=%d", k.Store, profileString(k.Net), k.Rcpts, k.NoFinal, len(k.data()))}
+	l := []string{fmt.Sprintf("store=%s %s recipients=%d noFinalNewline=%v size=%d", k.Store, profileString(k.Net), k.Rcpts, k.NoFinal, len(k.data())), k.busyString()}
 	for i, p := range k.Pieces {
 		l = append(l, fmt.Sprintf("%3d %s n=%d", i, p.Kind, p.N))
 	}
@@ -152,6 +165,8 @@ func genC02(w *simrt.Choices, tier string, avoid map[string]bool) Case {
 	if len(k.data()) > 8192 && k.Net.SegMode == 2 {
 		k.Net.SegMode = 1
 	}
+	k.Busy = w.Choose(3) == 0
+	k.OtherN = []int{30, 500, 3000, 9000}[w.Choose(4)]
 	return k
 }
 
@@ -212,9 +227,74 @@ func runC02(c *Ctx, cs Case) {
 		cl.cmd("QUIT")
 		okSent = true
 	})
+	// the second session (Busy): four different messages, one after the other
+	var others [][]byte
+	otherOK := false
+	var t2 *simrt.Task
+	if k.Busy {
+		for n := 0; n < 4; n++ {
+			d := []byte(fmt.Sprintf("Subject: the other message %d\r\nFrom: other@origin.test\r\n\r\n", n))
+			for i := 0; len(d) < k.OtherN; i++ {
+				d = append(d, fmt.Sprintf("%d/%04d ZYXWVUTSRQPONMLKJIHGFEDCBA zyxwvutsrqponmlkjihgfedcba 9876543210\r\n", n, i)...)
+			}
+			others = append(others, d)
+		}
+		t2 = c.Go("smtp-client2", func() {
+			cl, err := dialSMTP(c, "smtp2", 900*time.Second)
+			if err != nil {
+				c.Failf("dial-refused", "%v", err)
+				return
+			}
+			defer cl.close()
+			cl.readReply()
+			cl.cmd("EHLO other.sim")
+			for n, d := range others {
+				cl.cmd("MAIL FROM:<other@origin.test>")
+				cl.cmd("RCPT TO:<bystander@example.com>")
+				if r := cl.cmd("DATA"); r.Code != 354 {
+					c.Failf("data-refused", "second session, message %d: DATA answered %s", n, r)
+					return
+				}
+				if fin := cl.sendData(d); fin.Code != 250 {
+					c.Failf("message-refused", "second session: message %d (%d bytes) was answered %s", n, len(d), fin)
+					return
+				}
+			}
+			cl.cmd("QUIT")
+			otherOK = true
+		})
+		c.Stat("probe.second_smtp_session_alongside", 1)
+	}
 	c.Main.Join(t)
+	if t2 != nil {
+		c.Main.Join(t2)
+	}
 	if c.Failed() || !okSent {
 		return
+	}
+	if k.Busy {
+		if !otherOK {
+			return
+		}
+		l, err := st.GetMessages("bystander")
+		if err != nil || len(l) != len(others) {
+			c.Failf("message-not-stored", "mailbox \"bystander\" lists %d messages (err=%v) after the second session's %d acknowledged deliveries", len(l), err, len(others))
+			return
+		}
+		for n, om := range l {
+			r, err := om.Source()
+			if err != nil {
+				c.Failf("store-source-error", "bystander: Source(): %v", err)
+				return
+			}
+			src, _ := io.ReadAll(r)
+			_ = r.Close()
+			if !bytes.HasSuffix(normCRLF(src), normCRLF(others[n])) {
+				c.Failf(k.Store.Backend+"/other-session-content-differs", "message %d that the second session delivered at the same time is not stored as transmitted: stored %q, sent %q",
+					n, short(src), short(others[n]))
+				return
+			}
+		}
 	}
 	ms, err := st.GetMessages(box)
 	if err != nil || len(ms) != 1 {
@@ -301,19 +381,35 @@ func runC02(c *Ctx, cs Case) {
 		}()
 		return rec.Code, rec.Body.Bytes(), panicked
 	}
-	for _, iface := range []struct{ name, path string }{
-		{"rest-source", "/api/v1/mailbox/" + box + "/" + m.ID() + "/source"},
-		{"webui-source", "/serve/mailbox/" + box + "/" + m.ID() + "/source"},
-	} {
-		code, body, pan := get(iface.path)
-		if pan || code != 200 {
-			c.Failf(iface.name+"-failed", "GET %s: status %d panic=%v", iface.path, code, pan)
-			return
+	httpSources := func(rounds int) {
+		for i := 0; i < rounds; i++ {
+			for _, iface := range []struct{ name, path string }{
+				{"rest-source", "/api/v1/mailbox/" + box + "/" + m.ID() + "/source"},
+				{"webui-source", "/serve/mailbox/" + box + "/" + m.ID() + "/source"},
+			} {
+				code, body, pan := get(iface.path)
+				if pan || code != 200 {
+					c.Failf(iface.name+"-failed", "GET %s: status %d panic=%v", iface.path, code, pan)
+					return
+				}
+				if !bytes.Equal(normCRLF(body), ns) {
+					c.Failf(iface.name+"-differs", "GET %s returns a source that differs from the store's: %s", iface.path, diffBytes(normCRLF(body), ns))
+					return
+				}
+				if rounds > 1 {
+					simrt.Current().Yield("http reader between requests")
+				}
+			}
 		}
-		if !bytes.Equal(normCRLF(body), ns) {
-			c.Failf(iface.name+"-differs", "GET %s returns a source that differs from the store's: %s", iface.path, diffBytes(normCRLF(body), ns))
-			return
-		}
+	}
+	httpSources(1)
+	if c.Failed() {
+		return
+	}
+	var hr *simrt.Task
+	if k.Busy {
+		// the same requests again while the POP3 session below retrieves the message
+		hr = c.Go("http-readers", func() { httpSources(6) })
 	}
 	code, body, _ := get("/api/v1/mailbox/" + box)
 	var list []struct {
@@ -393,6 +489,9 @@ func runC02(c *Ctx, cs Case) {
 		}
 	})
 	c.Main.Join(pt)
+	if hr != nil {
+		c.Main.Join(hr)
+	}
 	env.cancel()
 	pop.stop()
 	long := 0
